@@ -208,16 +208,22 @@ impl FileSystem for MemoryFS {
     fn create_file(&self, path: &str) -> VfsResult<Box<dyn SeekAndWrite + Send>> {
         self.ensure_has_parent(path)?;
         let content = Arc::new(Vec::<u8>::new());
-        self.handle.write().unwrap().files.insert(
-            path.to_string(),
-            MemoryFile {
-                file_type: VfsFileType::File,
-                content,
-                created: SystemTime::now(),
-                modified: Some(SystemTime::now()),
-                accessed: Some(SystemTime::now()),
-            },
-        );
+        {
+            let mut handle = self.handle.write().unwrap();
+            if let Some(existing) = handle.files.get(path) {
+                ensure_file(existing)?;
+            }
+            handle.files.insert(
+                path.to_string(),
+                MemoryFile {
+                    file_type: VfsFileType::File,
+                    content,
+                    created: SystemTime::now(),
+                    modified: Some(SystemTime::now()),
+                    accessed: Some(SystemTime::now()),
+                },
+            );
+        }
         let writer = WritableFile {
             content: Cursor::new(vec![]),
             destination: path.to_string(),
@@ -229,6 +235,7 @@ impl FileSystem for MemoryFS {
     fn append_file(&self, path: &str) -> VfsResult<Box<dyn SeekAndWrite + Send>> {
         let handle = self.handle.write().unwrap();
         let file = handle.files.get(path).ok_or(VfsErrorKind::FileNotFound)?;
+        ensure_file(file)?;
         let mut content = Cursor::new(file.content.as_ref().clone());
         content.seek(SeekFrom::End(0))?;
         let writer = WritableFile {
